@@ -512,7 +512,16 @@ def l_partial(E, args, kw, st, node):
     raise OutsideSubset("functools.partial")
 
 
-LIBFUNCS = {"typing.cast": l_cast, "itertools.chain": l_chain, "itertools.chain.from_iterable": l_chain_from_iterable,
+def l_tomlkit_dump(E, args, kw, st, node):
+    from .fsmodel import FileHandle, handle_method
+    doc, fh = args[0], args[1]
+    if not isinstance(fh, FileHandle):
+        raise OutsideSubset("tomlkit.dump to a non-file")
+    text = SVal(E.uf("fn_tomlkit_api_dumps", [E.U.U, z3.BoolSort()], z3.StringSort())(E.coerce(doc, OPAQUE, st).t, z3.BoolVal(False)), STR)
+    yield from handle_method(E, fh, "write", [text], {}, st, node)
+
+
+LIBFUNCS = {"tomlkit.api.dump": l_tomlkit_dump, "typing.cast": l_cast, "itertools.chain": l_chain, "itertools.chain.from_iterable": l_chain_from_iterable,
             "dataclasses.replace": l_replace}
 
 
@@ -852,6 +861,22 @@ def list_method(E, recv, name, lv, args, kw, st, node):
         v = E.coerce(args[1], ty.elem, st)
         n = Q.Length(recv.t)
         E.mutate(st, lv, recv, SVal(Q.Concat(Q.Extract(recv.t, 0, i.t), Q.Unit(v.t), Q.Extract(recv.t, i.t, n - i.t)), ty))
+        yield st, SVal(None, NONE)
+    elif name == "pop":
+        n = Q.Length(recv.t)
+        if args:
+            i0 = E.coerce(args[0], INT, st).t
+            i = z3.If(i0 < 0, i0 + n, i0)
+        else:
+            i = n - 1
+        st = E.guard(st, z3.And(0 <= i, i < n), IndexError, "list.pop: empty list / index out of range")
+        if st is None:
+            return
+        v = SVal(Q.At(recv.t, i), ty.elem)
+        E.mutate(st, lv, recv, SVal(Q.Concat(Q.Extract(recv.t, 0, i), Q.Extract(recv.t, i + 1, n - i - 1)), ty))
+        yield st, v
+    elif name == "clear":
+        E.mutate(st, lv, recv, SVal(Q.Empty(recv.t.sort()), ty))
         yield st, SVal(None, NONE)
     else:
         raise OutsideSubset(f"list.{name}")
